@@ -19,6 +19,11 @@ try:
     demo = os.path.join(seed, 'demo.py')
     res['demo_without'] = run(['/venv/bin/python', demo, wt], cwd='/tmp')[0]
     rc, out = run(['git', '-C', wt, 'apply', os.path.join(os.path.abspath(seed), 'patch.diff')])
+    if rc:  # the seed was written against an older HEAD: fall back to a 3-way / fuzzy application
+        rc, out = run(['git', '-C', wt, 'apply', '--3way', os.path.join(os.path.abspath(seed), 'patch.diff')])
+        if rc:
+            rc, out = run(['patch', '-p1', '-d', wt, '-i', os.path.join(os.path.abspath(seed), 'patch.diff')])
+        run(['git', '-C', wt, 'reset', '-q'])
     res['apply'] = rc
     if rc: res['apply_out'] = out[-500:]
     if '--skip-baseline' not in sys.argv:
